@@ -308,7 +308,7 @@ def plan(tier):
 def run(tier):
     items = plan(tier)
     t = core.Tally()
-    core.run_pool([(MOD, "job", {"items": c}) for c in core.chunks(items[::-1], core.NPROC * 12)], 0, into=t)
+    core.run_pool([(MOD, "job", {"items": c}) for c in core.chunks(items[::-1], core.NPROC * 12)] + [("mc.capacity", "job", {"pid": "C07"})], 0, into=t)
     core.run_pool([(MOD, "job", {"items": c}) for c in core.chunks(items[:200], core.NPROC)], 1, into=t)
     cov = {
         "states": t.c["states"], "transitions": t.c["evaluations"], "traces_validated_against_impl": t.c["evaluations"],
@@ -322,7 +322,7 @@ def run(tier):
         "bounds": {"trees": len(items), "tier": tier},
     }
     return {"tally": t, "coverage": cov,
-            "guards": ("nontrivial", "err:RootResolverError", "err:ChildResolverError", "err:ResolverError", "theorem_instances",
+            "guards": ("capacity_checks", "nontrivial", "err:RootResolverError", "err:ChildResolverError", "err:ResolverError", "theorem_instances",
                        "calls_after_rename"),
             "assumptions": ["ASCII case folding only (str.upper on the alphabet)",
                             "names '', '.', '..' and names containing the separator are unreachable by construction and excluded "
